@@ -589,6 +589,15 @@ def step (st : St) (line : String) : St × String :=
         let m' := { m with structure_ := { m.structure_ with nextId := nx } }
         ({ st with msks := setSlot st.msks i (some m') }, "ok next=" ++ toString nx)
     | _, _ => (st, "bad-op")
+  | ["set_tracers", ms, n] =>
+    match handle 'M' ms, n.toNat? with
+    | some i, some k =>
+      match getSlot st.msks i with
+      | none => (st, "err NoSuchHandle")
+      | some m =>
+        if k ≥ 128 ∨ k < m.ntracers then (st, "bad-op")
+        else ({ st with msks := setSlot st.msks i (some { m with ntracers := k }) }, "ok tr=" ++ toString k)
+    | _, _ => (st, "bad-op")
   | ["roundtrip", _] => (st, "ok")
   | ["usk_rights", ms, p] =>
     match handle 'M' ms with
